@@ -186,8 +186,20 @@ class SymInt:
     def _divmod(self, a, b):
         c = Ctx.cur
         bz = Zt(b)
+        if z3.is_int_value(bz):
+            if bz.as_long() <= 0:
+                raise Undecided("floor division by a non-positive constant")
+            return a / bz, a % bz
         c.oblige("py.divisor_positive", bz > 0)
-        return a / bz, a % bz
+        # symbolic divisor: quotient/remainder axiomatised once per (dividend, divisor) - keeps the VCs polynomial
+        key = (a.sexpr() if hasattr(a, "sexpr") else str(a), bz.sexpr())
+        cache = c.__dict__.setdefault("divcache", {})
+        if key not in cache:
+            n = next(_ctr)
+            q, r = z3.Int("pyq!%d" % n), z3.Int("pyr!%d" % n)
+            c.assume(z3.And(a == q * bz + r, r >= 0, r < bz))
+            cache[key] = (q, r)
+        return cache[key]
 
     def __floordiv__(self, o):
         return lift(self._divmod(self.t, o)[0])
